@@ -186,7 +186,7 @@ def call_handler(hi, kind, variant, c1, c2):
 # ------------------------------------------------------------------ part A: queue view, symbolic limit (traced)
 import pynmon.views.broker as vb
 
-def queue_scene(kind, n, missing_mask):
+def queue_scene(kind, n, missing_mask, dup_mask=0):
     reset_uuid()
     app = mk_app(kind, app_id="c20q" + kind)
     t_ok = app.task(body)
@@ -204,6 +204,9 @@ def queue_scene(kind, n, missing_mask):
                     with create_sqlite_connection(sb.sqlite_db_path) as conn:
                         conn.execute(f"DELETE FROM {sb.tables.INVOCATIONS} WHERE invocation_id = ?", (iid,))
                         conn.commit()
+    for i, iid in enumerate(ids):
+        if (dup_mask >> i) & 1:
+            app.broker.route_invocation(iid)      # the same id queued once more (re-route, retry, at-least-once delivery)
     install(app)
     return app, ids
 
@@ -220,12 +223,12 @@ class _Rec:
     def TemplateResponse(self, *a, **k):
         return ("template", a[1] if len(a) > 1 else None)
 
-def queue_get(kind_i, limit, n, missing_mask, multiset_only=False):
+def queue_get(kind_i, limit, n, missing_mask, multiset_only=False, dup_mask=0):
     """the GET handler itself runs traced with the symbolic limit"""
     global LAST_DETAIL
     kind = ["mem", "sqlite"][kind_i]
     with NoTracing():
-        app, ids = queue_scene(kind, n, missing_mask)
+        app, ids = queue_scene(kind, n, missing_mask, dup_mask)
         before = queue_list(app, kind)
         saved = vb.templates
         vb.templates = _Rec()
@@ -248,7 +251,7 @@ def queue_get(kind_i, limit, n, missing_mask, multiset_only=False):
     with NoTracing():
         vb.templates = saved
         after = queue_list(app, kind)
-        LAST_DETAIL = {"kind": kind, "n": n, "missing_mask": missing_mask, "before": before, "after": after, "outcome": outcome}
+        LAST_DETAIL = {"kind": kind, "n": n, "missing_mask": missing_mask, "dup_mask": dup_mask, "before": before, "after": after, "outcome": outcome}
     if multiset_only:
         return sorted(after) == sorted(before)
     return after == before
@@ -272,6 +275,18 @@ def queue_twin(kind_i: int, limit: int, n: int) -> bool:
     """
     queue_ok(kind_i, limit, n)
     return False
+
+def queue_with_duplicates(kind_i: int, limit: int, n: int, dup: int) -> bool:
+    """
+    pre: 0 <= kind_i <= 1 and 1 <= n <= 3 and 1 <= dup < 8
+    pre: limit >= 6 or limit <= 0
+    post: _
+    """
+    # the same id queued more than once, the page covers the whole queue: ids, multiplicities and order are unchanged
+    kind_i = pick(kind_i, 0, 1); n = pick(n, 1, 3); dup = pick(dup, 1, 7)
+    if dup >= (1 << n):
+        return True
+    return queue_get(kind_i, limit, n, 0, dup_mask=dup)
 
 def finding_queue_rotates(kind_i: int, limit: int, n: int) -> bool:
     """
@@ -347,6 +362,7 @@ def run(ctx: Ctx) -> None:
     conds = [
         Cond("queue_ok", "confirm", 600),
         Cond("queue_twin", "refute", 120),
+        Cond("queue_with_duplicates", "confirm", 600, keyfn=lambda a, k: "C20:queue_view:queue-changed-when-an-id-is-queued-twice"),
         Cond("finding_queue_rotates", "finding", 300, key="C20:queue_view:rotates-order-when-queue-longer-than-limit",
              what="GET /broker/queue?limit=k with more than k queued messages pops k and re-appends them behind the rest: the queue order changes"),
         Cond("queue_never_loses", "confirm", 600, keyfn=lambda a, k: "C20:queue_view:loses-messages-when-record-missing",
